@@ -239,6 +239,13 @@ theorem glob_call {st : State} (h : Glob st) (pc : Pc) : Glob (callStep st pc).1
       (by show NodupKeys (demonitor st g b).map; unfold demonitor; dsimp only; exact nodupKeys_alter h.kMap _ _) rfl (by simp [demonitorEff])
       (by simp [demonitorEff])
   | demonitorScope s b => exact glob_congr h rfl rfl
+  | demonitorCall g b => exact h
+  | demonitorScopeCall s b => exact h
+  | demonitorFwd g b =>
+    exact glob_of_trans h (trans_demonitorFwd st g b)
+      (by show NodupKeys (demonitorFwdSt st g b).map; unfold demonitorFwdSt; dsimp only; exact nodupKeys_alter h.kMap _ _) rfl
+      (by simp [demFwdEff]) (by simp [demFwdEff])
+  | demonitorScopeFwd s b => exact glob_congr h rfl rfl
   | done => exact h
 
 theorem glob_exreg {st : State} (h : Glob st) (b : Nat) (ph : Phase) (r : ExReg) :
